@@ -1,5 +1,5 @@
-CONSTANTS PesResync = FALSE HdlVal = 5 MinPL = 27 TtxN = 2 VpsN = 1 TSP = 11 HL = 17 TSH = 10 MaxLines = 64
-  Streams <- StreamsT CorLines = {1, 2, 64}
+CONSTANTS HdlVal = 5 MinPL = 27 TtxN = 2 VpsN = 1 TSP = 11 HL = 17 TSH = 10 MaxLines = 64
+  Streams <- StreamsT RecStreams <- RecAll CorLines = {1, 64} Policies = {"none", "err", "all"} RecMode = "std"
 SPECIFICATION Spec
-INVARIANTS PartitionInvariance OnePiece Recovery NoLookaheadOverrun Consumed
+INVARIANTS PartitionInvariance OnePiece Recovery RecoveryMeaningful NoLookaheadOverrun Consumed
 CHECK_DEADLOCK FALSE
